@@ -16,9 +16,13 @@ package srv
 //@ ghost Service.finishing bool
 //@ ghost Service.late int
 //@ ghost Service.mylate int
-//@ protocol Service(s) = s.late >= 0 && s.late >= s.mylate && (atomicbool(s.isFinished) && !s.finishing && s.late == 0 ==> !atomicbool(s.isRunning))
-//@ protorely Service(s) = old(atomicbool(s.isFinished)) ==> atomicbool(s.isFinished)
-//@ protoshared Service(s) = s.finishing, s.late
+// J2: a started service that has not finished is running (so a second Start
+// cannot slip through between Run's return and the end of Cleanup).
+//@ protocol Service(s) = s.late >= 0 && s.late >= s.mylate && (atomicbool(s.isFinished) && !s.finishing && s.late == 0 ==> !atomicbool(s.isRunning)) && (oncedone(s.doStart) && !atomicbool(s.isFinished) ==> atomicbool(s.isRunning))
+// rely: isFinished and the once are monotone; other goroutines clear isRunning
+// only once the service has finished
+//@ protorely Service(s) = (old(atomicbool(s.isFinished)) ==> atomicbool(s.isFinished)) && (old(oncedone(s.doStart)) ==> oncedone(s.doStart)) && (old(atomicbool(s.isRunning)) && !atomicbool(s.isRunning) ==> atomicbool(s.isFinished))
+//@ protoshared Service(s) = s.finishing, s.late, onces
 //@ atomicghost Service.isRunning Swap !aold && anew && atomicbool(s.isFinished) && !s.finishing :: s.late = s.late + 1; s.mylate = s.mylate + 1
 //@ atomicghost Service.isFinished Store anew :: s.finishing = true
 //@ atomicghost Service.isRunning Store !anew && s.mylate > 0 :: s.late = s.late - 1; s.mylate = s.mylate - 1
